@@ -103,6 +103,8 @@ def build_traces(path, tier, seed):
             x = np.asarray(argi, dtype=float)
             shift = float(np.round(shift)) if abs(shift) < top / 4 else 3.0
         cleaned_entry = False
+        if rng.integers(3) == 0:
+            gen.array_noise(rng, argi)          # other public functions on the same container just before, results overwritten
         d = pc.determine_peaks_only_delta_series(argi)
         p = pc.determine_pseudo_cyclic_peak_only_series(argi)
         if i % 6 == 4 and not np.any(np.diff(x) == 0):
@@ -159,6 +161,10 @@ def build_traces(path, tier, seed):
                                                 cut_off=float(rng.choice([0.1, 0.05, 0.0, 0.02, 0.1])))
             im.calc_cyc_amp_array_w_power_law(x, float(rng.uniform(0.5, 20)), float(rng.choice([1.0, 0.5, 0.3])))
         sw = pc.get_switched_peak_array_indices(x)
+        if rng.integers(2):
+            # the caller overwrites index / series arrays it was handed by other functions for the same record just before
+            gen._scribble(pc.get_switched_peak_array_indices(x))
+            gen.array_noise(rng, x, k=1)
         ncyc = col0(im.calc_n_cyc_array_w_power_law(x, aref, b, cut_off=cut), n)
         amp = col0(im.calc_cyc_amp_array_w_power_law(x, namp, b), n)
         if not (ncyc[-1] > 0):
